@@ -109,6 +109,7 @@ func checkC12(c *Check) {
 	c.Rule("C12.R2", "Redis field tables agree: fields written by SetTokenResponse ∪ {time_added} = tokenResponseKeys = tags of the token scan struct; fields written by SetAuthorizationState ∪ {time_added} = authorizationStateKeys = tags of the state scan struct; every optional token field is either HSET or queued for HDEL (no stale member survives an overwrite); ClearAuthorizationState deletes ≥ 1 member the state reader requires and no token member; RemoveSession deletes the whole key; the scan structs are copied field by field into the API types.", 10)
 	c.Rule("C12.R3", "no replica-local state: no field of the Redis store is written outside its constructor and its methods write no package-level variable — any replica attached to the same Redis serves any session.", 2)
 	c.Rule("C12.R4", "ids do not interfere: in both stores the key of every backend access is exactly the method's session-id parameter (sweeps range over the map's own keys).", 12)
+	c.Rule("C12.R6", "sessions disappear only by RemoveSession or by expiry: every delete from the memory store's session map is RemoveSession's or is guarded by the expiry predicate alone — otherwise a later write would re-create the session with a new creation time.", 4)
 	c.Rule("C12.R5", "creation time is write-once (first write fixes it): as C10.R2.", 2)
 	sr, missing := getStoreRoles(P)
 	if len(missing) > 0 {
@@ -594,6 +595,72 @@ func checkC12(c *Check) {
 		}
 	}
 	c.Obl(nKey >= 12, "C12.R4", "key-count", "-", fmt.Sprintf("%d keyed backend accesses", nKey), fmt.Sprintf("only %d keyed backend accesses found (floor 12)", nKey))
+
+	// ---- R6: sessions disappear only by RemoveSession or expiry
+	nDel := 0
+	for _, fn := range all {
+		ff := FactsOf(fn)
+		for _, b := range fn.Blocks {
+			for _, ins := range b.Instrs {
+				cc, ok := ins.(*ssa.Call)
+				if !ok {
+					continue
+				}
+				bi, isB := cc.Call.Value.(*ssa.Builtin)
+				if !isB || bi.Name() != "delete" {
+					continue
+				}
+				if cl, _ := classOfMap(cc.Call.Args[0]); !strings.HasPrefix(cl, memID+".sessions") {
+					continue
+				}
+				nDel++
+				root := fn
+				for root.Parent() != nil {
+					root = root.Parent()
+				}
+				if root.Name() == "RemoveSession" {
+					c.Pass("C12.R6", "delete/"+fnKey(fn), P.Pos(cc.Pos()), "RemoveSession deletes the key it was given")
+					continue
+				}
+				// otherwise: dominated by expiry predicate == true, and by nothing else
+				okExp := false
+				for cond, pol := range ff.At(cc) {
+					inner, neg := unwrapBool(cond)
+					if pc, _, isC := asCall(inner); isC && pc.Common().StaticCallee() == sr.Expiry && (pol != neg) {
+						okExp = true
+					}
+				}
+				last := ssa.Value(nil)
+				if len(cc.Block().Preds) == 1 {
+					if iff, isIf := cc.Block().Preds[0].Instrs[len(cc.Block().Preds[0].Instrs)-1].(*ssa.If); isIf {
+						last = iff.Cond
+					}
+				}
+				onlyExp := true
+				if last != nil {
+					inner, _ := unwrapBool(last)
+					if pc, _, isC := asCall(inner); !isC || pc.Common().StaticCallee() != sr.Expiry {
+						// a phi of `s != nil && expired` is fine; anything that mixes other session properties is not
+						if ph, isPhi := inner.(*ssa.Phi); isPhi {
+							for _, e := range ph.Edges {
+								if _, isK := constBool(e); isK {
+									continue
+								}
+								if pc2, _, isC2 := asCall(e); !isC2 || pc2.Common().StaticCallee() != sr.Expiry {
+									onlyExp = false
+								}
+							}
+						} else {
+							onlyExp = false
+						}
+					}
+				}
+				c.Obl(okExp && onlyExp, "C12.R6", "delete/"+fnKey(fn), P.Pos(cc.Pos()), "a session is dropped only when the expiry predicate says so",
+					"a session can be deleted from the map in "+fnKey(fn)+" for a reason other than RemoveSession or the expiry predicate: a later write re-creates it with a new creation time (creation time no longer fixed by the first write)")
+			}
+		}
+	}
+	c.Obl(nDel >= 3, "C12.R6", "delete-count", "-", fmt.Sprintf("%d deletes from the session map", nDel), fmt.Sprintf("only %d deletes found (floor 3)", nDel))
 
 	// ---- R5
 	c10R2(c, sr)
